@@ -72,6 +72,70 @@ def _orient(rel):
     return None
 
 
+def no_cancellation(ctx, rel, name):
+    """the squared lengths the image search compares are accumulated from squares of the candidate's own components -- every added term is non-negative, so nothing can
+    cancel.  (An expanded form |d|^2 + 2 d.s + |s|^2 is the same number in exact arithmetic and loses every digit for near-image pairs across a face of a wide cell.)"""
+    fn = ctx.fn(rel, name)
+    loc = '%s::%s' % (rel, name)
+    assigns = {}
+    for st in ast.walk(fn):
+        if isinstance(st, ast.Assign):
+            for t in st.targets:
+                base = t
+                while isinstance(base, ast.Subscript):
+                    base = base.value
+                if isinstance(base, ast.Name):
+                    assigns.setdefault(base.id, []).append((t, st.value, False))
+        elif isinstance(st, ast.AugAssign):
+            base = st.target
+            while isinstance(base, ast.Subscript):
+                base = base.value
+            if isinstance(base, ast.Name):
+                assigns.setdefault(base.id, []).append((st.target, st.value, not isinstance(st.op, ast.Add)))
+
+    def sos(e, seen=()):
+        if isinstance(e, ast.Constant):
+            return isinstance(e.value, (int, float)) and e.value >= 0
+        if isinstance(e, ast.BinOp) and isinstance(e.op, ast.Add):
+            return sos(e.left, seen) and sos(e.right, seen)
+        if isinstance(e, ast.BinOp) and isinstance(e.op, ast.Mult):
+            return norm(e.left) == norm(e.right)
+        if isinstance(e, ast.BinOp) and isinstance(e.op, ast.Pow):
+            return isinstance(e.right, ast.Constant) and e.right.value == 2
+        if isinstance(e, ast.Call) and norm(e.func) in ('np.dot', 'np.inner', 'np.vdot') and len(e.args) == 2:
+            return norm(e.args[0]) == norm(e.args[1])
+        if isinstance(e, ast.Call) and isinstance(e.func, ast.Attribute) and e.func.attr == 'dot' and len(e.args) == 1:
+            return norm(e.func.value) == norm(e.args[0])
+        if isinstance(e, ast.Call) and norm(e.func) == 'np.sum' and len(e.args) == 1:
+            return sos(e.args[0], seen)
+        base = e
+        while isinstance(base, ast.Subscript):
+            base = base.value
+        if isinstance(base, ast.Name) and isinstance(e, (ast.Name, ast.Subscript)):
+            if base.id in seen:
+                return True
+            # an element of a buffer: what is stored into its elements; a plain name: what the name is bound to
+            defs = [d_ for d_ in assigns.get(base.id, []) if isinstance(d_[0], ast.Subscript) == isinstance(e, ast.Subscript)]
+            if not defs:
+                return False
+            return all((not bad) and sos(v, seen + (base.id,)) for _t, v, bad in defs)
+        return False
+    cmps = [c for c in ast.walk(fn) if isinstance(c, ast.Compare) and len(c.ops) == 1 and isinstance(c.ops[0], (ast.Lt, ast.LtE, ast.Gt, ast.GtE))
+            and not any(isinstance(x, ast.Constant) for x in [c.left] + c.comparators) and all(isinstance(x, (ast.Name, ast.Subscript, ast.BinOp, ast.Call)) for x in [c.left] + c.comparators)]
+    n = 0
+    for c in cmps:
+        sides = [c.left, c.comparators[0]]
+        # the comparison of two squared lengths: at least one side is (a name bound to) a sum of products
+        if not any(isinstance(x, (ast.Name, ast.Subscript)) and any(isinstance(v, ast.BinOp) for _t, v, _b in assigns.get((x if isinstance(x, ast.Name) else x.value).id if isinstance(x if isinstance(x, ast.Name) else x.value, ast.Name) else '', []))
+                   or isinstance(x, ast.BinOp) for x in sides):
+            continue
+        n += 1
+        bad = [norm(x) for x in sides if not sos(x)]
+        ctx.ob('NO-CANCELLATION', loc, 'the squared lengths compared in `%s` are sums of squares of the vectors\' own components (non-negative terms only: no cross terms that cancel for near-image pairs)' % norm(c)[:50], not bad,
+               'not a sum of squares: %s' % bad, node=c, key='sum of squares ' + norm(c)[:40])
+    ctx.floor('NO-CANCELLATION/' + name, n, 1)
+
+
 def minfold(ctx, rel, name, vector):
     loc = '%s::%s' % (rel, name)
     P0, P1 = symarray('p', (1, 3), real=True), symarray('q', (1, 3), real=True)
@@ -307,7 +371,7 @@ def run(ctx):
                        'Not decided: the nearest-image theorem itself (a property of the 27-candidate minimum, not of the code).')
     from .. import readonly, lints
     from .c01 import scale_free_cleanup
-    ctx.run_rules([lambda c: scale_free_cleanup(c, 'CELL-SCALE') and None, lambda c: lints.c_double(c, 'C-DOUBLE', DV, floor=7), lambda c: lints.c_double(c, 'C-DOUBLE', DM, floor=6),
+    ctx.run_rules([lambda c: no_cancellation(c, DM, 'dmag2_c'), lambda c: no_cancellation(c, DV, 'dvect_c'), lambda c: scale_free_cleanup(c, 'CELL-SCALE') and None, lambda c: lints.c_double(c, 'C-DOUBLE', DV, floor=7), lambda c: lints.c_double(c, 'C-DOUBLE', DM, floor=6),
                    lambda c: minfold(c, DV, 'dvect_c', True), lambda c: minfold(c, DM, 'dmag2_c', False),
                    lambda c: wrapper(c, DV, 'dvect', 'dvect_c', True), lambda c: wrapper(c, DM, 'dmag', 'dmag2_c', False), pairing,
                    lambda c: readonly.rule(c, DV, floor=1) and None, lambda c: readonly.rule(c, DM, floor=1) and None])
